@@ -30,6 +30,15 @@ func c08Gen(seed uint64, run int, tier string) *Case {
 		c.Cfg["sameseg"] = int64(r.Intn(2))
 		return c
 	}
+	if run%20 == 2 || run%20 == 12 {
+		// a Twalk parked in the implementation while a request names its new fid (2), or a Tflush whose
+		// FlushOp.Flush call is parked (12)
+		c.Stratum = []string{"newfid-in-flight", "flushop-blocked"}[run%20/10]
+		c.Cfg["special"] = int64(1 + run%20/10)
+		c.Cfg["nconn"] = 2
+		c.Cfg["sameseg"] = int64(r.Intn(2))
+		return c
+	}
 	if run%10 == 4 {
 		// the implementation is slow inside FidDestroy, the callback of a clunk
 		c.Stratum = "fid-destroy-blocked"
@@ -297,7 +306,117 @@ func c08Destroy(x *Ctx) {
 	}
 }
 
+// c08Special: (1) a Twalk to a new fid is parked in the implementation and a request that names the new fid number
+// arrives: whatever happens to that request, the others -- other fids, other connection -- are answered;
+// (2) the implementation's FlushOp.Flush call for a Tflush is parked: requests with other tags are answered.
+func c08Special(x *Ctx) {
+	c := x.C
+	kind := int(c.cfg("special"))
+	ms := uint32(1024)
+	fs := NewScriptFS(x)
+	fs.PlanFor = func(inv *Inv) *Plan {
+		p := &Plan{NWqid: -1, NData: -1, QType: qDir}
+		if inv.Tag == 10 && inv.Conn == 0 {
+			p.Mode = PHold
+		}
+		return p
+	}
+	firstFlush := true
+	fs.FlushHold = func(inv *Inv) bool {
+		if kind == 2 && firstFlush {
+			firstFlush = false
+			return true
+		}
+		return false
+	}
+	sys := NewSrvSys(x, fs.OpsValue(false, kind == 2), fs, ms, true, int(c.cfg("maxpend")), int(c.cfg("debug")))
+	for i := 0; i < 2; i++ {
+		sys.AddConn(0, int(c.cfg("seg")))
+	}
+	var others []*Sent
+	var parkedWhat string
+	setup := false
+	rt.Go(rt.SiteSpawn, func() {
+		rt.SetName("client")
+		for ci := 0; ci < 2; ci++ {
+			p := sys.Conns[ci].Peer
+			if r := p.Call(&Msg{Type: Tversion, Tag: NOTAG, Msize: ms, Version: "9P2000.u"}); r == nil || r.M == nil || r.M.Type != Rversion {
+				return
+			}
+			for _, m := range []*Msg{{Type: Tattach, Tag: 2, Fid: 0, Afid: NOFID, Uname: "u0", Nuname: 0}, {Type: Twalk, Tag: 3, Fid: 0, Newfid: 1, Wname: []string{"a"}}} {
+				if r := p.Call(m); r == nil || r.M == nil || r.M.Type == Rerror {
+					x.Violate("setup", "%s answered %v", m, r)
+					return
+				}
+			}
+		}
+		setup = true
+		p0, p1 := sys.Conns[0].Peer, sys.Conns[1].Peer
+		var ms0 []*Msg
+		if kind == 1 {
+			parkedWhat = "a Twalk to the new fid 2"
+			p0.Write(&Msg{Type: Twalk, Tag: 10, Fid: 0, Newfid: 2, Wname: []string{"b"}})
+			rt.YieldUntil(rt.SiteActor, func() bool { return len(fs.HeldInvs()) > 0 || p0.EOF })
+			p0.Write(&Msg{Type: Tstat, Tag: 11, Fid: 2}) // names the fid being made: not judged
+			ms0 = []*Msg{{Type: Tstat, Tag: 12, Fid: 1}, {Type: Twalk, Tag: 13, Fid: 0, Newfid: 3, Wname: []string{"c"}}, {Type: Tstat, Tag: 14, Fid: 0}}
+		} else {
+			parkedWhat = "a Tstat and the FlushOp.Flush call of the Tflush naming it"
+			p0.Write(&Msg{Type: Tstat, Tag: 10, Fid: 1})
+			rt.YieldUntil(rt.SiteActor, func() bool { return len(fs.HeldInvs()) > 0 || p0.EOF })
+			p0.Write(&Msg{Type: Tflush, Tag: 11, Oldtag: 10})
+			rt.YieldUntil(rt.SiteActor, func() bool { return len(fs.HeldInvs()) > 1 || p0.EOF })
+			ms0 = []*Msg{{Type: Tstat, Tag: 12, Fid: 1}, {Type: Twalk, Tag: 13, Fid: 0, Newfid: 3, Wname: []string{"c"}}, {Type: Tclunk, Tag: 14, Fid: 1}}
+		}
+		if c.cfg("sameseg") != 0 {
+			others = append(others, p0.Write(ms0...)...)
+		} else {
+			for _, m := range ms0 {
+				others = append(others, p0.Write(m)[0])
+			}
+		}
+		others = append(others, p1.Write(&Msg{Type: Tstat, Tag: 20, Fid: 1}, &Msg{Type: Twalk, Tag: 21, Fid: 0, Newfid: 4, Wname: []string{"d"}})...)
+	})
+	if !x.Run() {
+		return
+	}
+	if !setup {
+		if len(x.Res.Viol) == 0 {
+			x.Violate("setup", "the set-up did not complete")
+		}
+		return
+	}
+	if n := len(fs.HeldInvs()); n >= 1 {
+		x.Probe("quiescence-with-requests-parked")
+		for _, s := range others {
+			if s.Reply == nil {
+				x.Violate("h1-delayed", "%s has no reply at quiescence while only %s is parked inside the implementation", s.M, parkedWhat)
+			}
+		}
+	} else {
+		x.Violate("h1-delayed", "%s never reached the implementation", parkedWhat)
+	}
+	for {
+		held := fs.HeldInvs()
+		if len(held) == 0 {
+			break
+		}
+		held[x.S.Choose(len(held))].Released = true
+		if !x.Run() {
+			return
+		}
+	}
+	for _, s := range sys.Conns[0].Peer.Sent {
+		if s.Reply == nil && s.M.Tag != 10 && len(x.Res.Viol) == 0 {
+			x.Violate("h1-delayed", "%s has no reply at the end", s.M)
+		}
+	}
+}
+
 func c08Exec(x *Ctx) {
+	if x.C.cfg("special") != 0 {
+		c08Special(x)
+		return
+	}
 	if x.C.cfg("destroyblock") != 0 {
 		c08Destroy(x)
 		return
